@@ -47,4 +47,12 @@ def run(tier, seed):
                              'kind': 'bounded native: %s, inspected at several instants' % ', '.join(c for c, _ in BLR.CASES)})
         if badl:
             pack.violation(lname, {'bounded': True, 'inputs': badl, 'native_cmd': 'contracts/bounded_limiters_run.py'})
+    sname = 'C09/andes/core/discrete.py:AntiWindup/bounded:state-inside-limits-at-every-stored-instant-of-whole-runs'
+    r = native_guard(pack, sname, BLR.run_stored)
+    if r is not None:
+        ns, bads = r
+        pack.bounded.append({'function': 'AntiWindup states over the stored time series of TDS runs (end to end)', 'stored_values': ns, 'counted_as_proved': False,
+                             'kind': 'bounded native: %s, every stored instant, constant limits, tolerance 5e-4' % ', '.join(c for c, _ in BLR.STORED_CASES)})
+        if bads:
+            pack.violation(sname, {'bounded': True, 'inputs': bads, 'native_cmd': 'contracts/bounded_limiters_run.py run_stored'})
     return pack.finish()
